@@ -112,10 +112,58 @@ def make_reuse_case(rng, wrap=False):
     return dict(case, ops=list(w.oplog))
 
 
+def make_expiry_case(rng, wrap=False):
+    """Directed schedule: a lifetime-limited and a reliable channel of one endpoint are flushed in the same
+    call, everything in flight is lost, the lifetime passes and T3 fires: only the lifetime-limited message
+    may be given up (per-message reliability must not leak from one message to the next)."""
+    case = make_case(rng, "clean", 0, wrap)
+    case["profile"] = "expiry"
+    w = W.World(dict(case, ops=[]))
+    w.oplog = []
+    w.apply(["start", "A"])
+    w.apply(["start", "B"])
+    w.heal(400)
+    n = rng.choice("AB")
+    other = "B" if n == "A" else "A"
+    w.apply(["create", n, dict(label="timed", ordered=rng.random() < 0.5, maxPacketLifeTime=rng.choice([1, 100]))])
+    w.apply(["create", n, dict(label="rel", ordered=rng.random() < 0.7)])
+    if rng.random() < 0.5:
+        w.apply(["create", n, dict(label="rex", ordered=rng.random() < 0.5, maxRetransmits=rng.choice([0, 1]))])
+    w.heal(600)
+    chans = list(range(len(w.ep[n].channels)))
+    for _round in range(rng.randrange(1, 4)):
+        # several sends queued before the flush task runs
+        order = chans[:]
+        if rng.random() < 0.3:
+            rng.shuffle(order)
+        for i in order:
+            for _ in range(rng.choice([1, 1, 2])):
+                w.salt += 1
+                w.apply(["send", n, i, rng.choice("sb"), rng.choice([1, 10, 100, 1300]), w.salt])
+        while w.ep[n].tasks:
+            w.apply(["task", n])
+        # the network loses (most of) what is in flight
+        while w.net[other]:
+            if rng.random() < 0.85:
+                w.apply(["drop", other, 0])
+            else:
+                w.apply(["deliver", other, 0])
+        w.apply(["clock", rng.choice([200, 3000, 70000])])
+        if w.ep[n].armed():
+            w.apply(["fire", n, "t3"])
+        while w.ep[n].tasks:
+            w.apply(["task", n])
+        if rng.random() < 0.5:
+            w.heal(400)
+    return dict(case, ops=list(w.oplog))
+
+
 def _gen(args):
     seed, profile_name, steps, wrap = args
     if profile_name == "reuse":
         return make_reuse_case(random.Random(seed), wrap)
+    if profile_name == "expiry":
+        return make_expiry_case(random.Random(seed), wrap)
     return make_case(random.Random(seed), profile_name, steps, wrap)
 
 
